@@ -14,6 +14,10 @@ type Recorder struct {
 	// returned to the producer and the event is not recorded.
 	Hook func(idx int, e Ev) error
 	N    int // number of events seen (recorded or refused)
+	// Limit > 0: events beyond Limit are refused with ErrTooManyEvents (keeps an
+	// amplifying input — see the open finding on UBJSON zero-payload typed
+	// containers — from exhausting memory in checks that record arbitrary bytes).
+	Limit int
 }
 
 var _ structform.Visitor = (*Recorder)(nil)
@@ -21,6 +25,9 @@ var _ structform.Visitor = (*Recorder)(nil)
 func (r *Recorder) add(e Ev) error {
 	idx := r.N
 	r.N++
+	if r.Limit > 0 && r.N > r.Limit {
+		return ErrTooManyEvents
+	}
 	if r.Hook != nil {
 		if err := r.Hook(idx, e); err != nil {
 			return err
